@@ -182,10 +182,13 @@ def run(ctx, res):
     res.coverage["of_which_accepted_by_the_library"] = sum(a["extra"].get("accepted", 0) for a in accs_l)
     accs += accs_l
     tot = sweep.merge(accs)
-    factors, keysets = {}, {}
+    factors, keysets, factor_task = {}, {}, {}
     for a in accs:
+        t = a.get("_task")
         for k, v in a["extra"].get("factors", {}).items():
-            factors.setdefault(k, v)
+            if k not in factors:
+                factors[k] = v
+                factor_task[k] = [blocks[t[0]].name, t[1], t[2]] if t else None
         for k, v in a["extra"].get("keysets", {}).items():
             keysets.setdefault(k, v)
     ctx.log("%d instances x4, %d distinct factors, %d distinct key sets" % (tot["n"], len(factors), len(keysets)))
@@ -252,6 +255,7 @@ def run(ctx, res):
             "what": "schema %s rejects %s = %s (%s), e.g. %s(%r).as_json(sort=%s, minimal=%s)" % (
                 ver, name, text, errs[0][2], T.CLASSNAME[fam], vec, s, m),
             "kind": "factor", "family": fam, "input": vec, "opts": [s, m], "factor": name,
+            "factor_value": text, "schema": ver, "task": factor_task.get((ver, name, fk)), "tier": ctx.tier,
             "signature": sig})
     sweep.fill(res, ctx, tot, blocks,
                "states = accepted vectors; each is serialised with all four (sort, minimal) pairs, "
@@ -299,4 +303,21 @@ def replay(case):
 
 
 def replay_task(case):
-    return product.replay_task(jsonspace.blocks(case.get("tier") or "quick"), visit, sweep.new_acc, case)
+    blocks = jsonspace.blocks(case.get("tier") or "quick")
+    if case.get("kind") != "factor":
+        return product.replay_task(blocks, visit, sweep.new_acc, case)
+    # a factor value that only arises after the inputs preceding it in its task
+    for fam in T.FAMILIES:
+        schema(fam)
+    name, lo, hi = case["task"]
+    acc = product.run_single_task(blocks, visit, sweep.new_acc, name, lo, hi, case.get("tier"))
+    for (ver, fname, fk), (vec, s, m) in acc["extra"].get("factors", {}).items():
+        if ver == case["schema"] and fname == case["factor"] and factor_text(fname, fk) == case["factor_value"]:
+            V = jsonval.Validator()
+            try:
+                inst = jsonval.factor_instance(_SCHEMAS[ver], fname, case["factor_value"])
+                errs = V.errors(ver, json.dumps(inst))
+            finally:
+                V.close()
+            return bool(errs), "task %s produces %s = %s (first at %r): %r" % (case["task"], fname, case["factor_value"], vec, errs[:2])
+    return False, "the task no longer produces %s = %s" % (case["factor"], case["factor_value"])
